@@ -87,6 +87,10 @@ func c01() {
 				actions = append(append([]seccomp.Action{}, vlib.NamedActions...), vlib.RetUserNotif, 0x00050005, seccomp.Action(r.Uint32()))
 			}
 			p = vlib.GenNamesOnly(r, t, []int{0, 0, 1, 2, 3}[r.Intn(5)], actions, vlib.NamedActions)
+			if i%7 == 4 {
+				run.Count("policies_with_data_bits_in_group_actions", 1)
+				vlib.WithDataBits(r, p)
+			}
 		}
 		spec := vlib.SpecOf(p, t.Name)
 		c := vlib.Compile(p, t)
